@@ -44,6 +44,9 @@ pub struct ProcessPlan {
     pub clock_skew_s: i64,
     pub clock_jump_s: i64,
     pub clock_jump_after: u64,
+    /// CPUs the process believes it has (0 = the real number); a configuration, not a fault.
+    #[serde(default)]
+    pub cpus: usize,
     pub threads: Vec<ThreadPlan>,
     pub sched: SchedPlan,
     pub fmt: FmtPlan,
@@ -174,6 +177,7 @@ pub fn proc_main() -> i32 {
 fn run_process(input: &WorkerInput) -> WorkerOutput {
     let p = &input.process;
     seams::set_clock(p.clock_skew_s, p.clock_jump_s, p.clock_jump_after);
+    seams::set_cpu_count(p.cpus);
     let env_before: BTreeMap<String, String> = std::env::vars_os()
         .map(|(k, v)| (k.to_string_lossy().into_owned(), v.to_string_lossy().into_owned()))
         .collect();
@@ -205,6 +209,11 @@ fn run_process(input: &WorkerInput) -> WorkerOutput {
             .stack_size(16 << 20)
             .spawn(move || {
                 seams::set_thread_entropy(Some(tplan.entropy));
+                {
+                    // a sleeping caller is a scheduling point, not a real delay
+                    let sched = sched.clone();
+                    seams::set_sleep_hook(Some(Box::new(move |_ns| sched.point_no_unwind(tid, "sleep"))));
+                }
                 let backend = Arc::new(C18Backend {
                     sched: sched.clone(),
                     tid,
@@ -256,6 +265,7 @@ fn run_process(input: &WorkerInput) -> WorkerOutput {
                     }
                 }));
                 verif_hooks::install(None);
+                seams::set_sleep_hook(None);
                 sched.thread_done(tid);
                 let children = backend.children.lock().unwrap();
                 spawns.fetch_add(children.len() as u64, Ordering::Relaxed);
@@ -440,6 +450,7 @@ fn pristine_process(job_count: usize) -> ProcessPlan {
         clock_skew_s: 0,
         clock_jump_s: 0,
         clock_jump_after: u64::MAX,
+        cpus: 0,
         threads: vec![ThreadPlan {
             entropy: 0,
             jobs: (0..job_count).collect(),
@@ -541,7 +552,7 @@ pub fn gen_plan(rng: &mut Rng) -> RunPlan {
                 variant: rng.below(6) as u32,
             },
             _ => ShaderRef::Bad {
-                which: rng.below(7) as u32,
+                which: rng.below(corpus::BAD_SHADERS) as u32,
             },
         };
         let include_path = if rng.chance(300) {
@@ -615,6 +626,7 @@ pub fn gen_plan(rng: &mut Rng) -> RunPlan {
                 0
             },
             clock_jump_after: rng.range(0, 5),
+            cpus: *rng.pick(&[0usize, 0, 1, 1, 2, 4]),
             threads,
             sched: SchedPlan {
                 seed: rng.next_u64(),
@@ -951,6 +963,9 @@ fn minimise(scratch: &Scratch, golden: &Golden, plan: &RunPlan, class: &str) -> 
         let mut c = best.clone();
         c.processes[pi].cwd_kind = 0;
         attempt!(c);
+        let mut c = best.clone();
+        c.processes[pi].cpus = 0;
+        attempt!(c);
         for ti in 0..best.processes[pi].threads.len() {
             let mut c = best.clone();
             c.processes[pi].threads[ti].entropy = 1;
@@ -1031,6 +1046,7 @@ fn plan_summary(plan: &RunPlan) -> serde_json::Value {
             "crash_points": p.sched.crash_points,
             "env_vars": p.env.iter().map(|(k, _)| k.clone()).collect::<Vec<_>>(),
             "cwd_kind": p.cwd_kind,
+            "cpus": p.cpus,
             "clock_skew_years": p.clock_skew_s / (365 * 24 * 3600),
         })).collect::<Vec<_>>(),
     })
